@@ -121,6 +121,14 @@ def make_cases(ctx):
         ("malformed-yaml-explicit", dict(base, **{"bad.yaml": "a: [1,\n"}), [], ["magic-numbers", "--config", "bad.yaml"], ["."]),
         ("bad-option-value", base, [], ["nesting", "--max-depth", "x"], ["."]),
         ("unknown-option", base, [], ["srp", "--bogus"], ["."]),
+        ("zero-max-methods", base, [], ["srp", "--max-methods", "0"], ["."]),
+        ("zero-max-loc", base, [], ["srp", "--max-loc", "0"], ["."]),
+        ("zero-max-methods-and-loc", base, [], ["srp", "--max-methods", "0", "--max-loc", "0"], ["."]),
+        ("zero-min-lines", base, [], ["dry", "--min-lines", "0"], ["."]),
+        ("zero-min-continues", base, [], ["pipeline", "--min-continues", "0"], ["."]),
+        ("zero-max-depth", base, [], ["nesting", "--max-depth", "0"], ["."]),
+        ("negative-max-depth", base, [], ["nesting", "--max-depth", "-2"], ["."]),
+        ("negative-max-loc", base, [], ["srp", "--max-loc", "-5"], ["."]),
         ("unknown-format", base, [], ["dry", "--format", "xml"], ["."]),
         ("bad-rules-json", base, [], ["file-placement", "--rules", "{bad"], ["."]),
         ("project-root-missing", base, ["--project-root", "no_such_root"], ["nesting"], ["."]),
